@@ -33,7 +33,12 @@ def work(job):
     binary, cases = job
     jobs = []; meta = {}
     for cid, seed, dm, eng, pend in cases:
-        ch, hist = c01lib.make_case(seed, dm if dm != 'promela' else 'lua')
+        if seed < 0:
+            # families: late binding with local data entered and left repeatedly / history recorded several times
+            ch, hist = (C.gen_late_chart, C.gen_hist_chart)[(-seed) % 2](-seed)
+            if dm == 'null' and ch.binding == 'late': dm = 'lua'
+        else:
+            ch, hist = c01lib.make_case(seed, dm if dm != 'promela' else 'lua')
         ref = c01lib.ref_run(ch, hist, pend)
         if ref.diverged: continue
         xml = C.render(ch, dm)
@@ -159,6 +164,8 @@ def main(tier, replay):
     cases = []
     for i in range(n):
         cases.append(('s%d' % i, base + i, ('lua', 'promela', 'lua', 'null')[i % 4], ('large', 'fast')[i % 2], (0, 0, 1, 2)[(i // 2) % 4]))
+    for i in range(n // 5):
+        cases.append(('f%d' % i, -(base + 700000 + i), ('lua', 'promela', 'lua', 'null')[i % 4], ('large', 'fast')[(i // 2) % 2], (0, 1)[(i // 4) % 2]))
     jobs = [(binary, cases[i:i + 12]) for i in range(0, len(cases), 12)]
     verd = collections.Counter(); compared = 0
     for out in common.pmap(work, jobs):
